@@ -15,6 +15,7 @@ import os
 import shutil
 import subprocess
 import sys
+import tempfile
 import time
 
 ROOT = os.path.dirname(os.path.dirname(os.path.abspath(__file__)))
@@ -52,9 +53,6 @@ def main():
         if run_suite:
             t0 = time.time()
             # (the suite's visualisation tests leave ~100 MB per run in the temp directory: give it one of its own and remove it)
-            import shutil
-            import tempfile
-
             suite_tmp = tempfile.mkdtemp(prefix="suite-tmp-")
             try:
                 t = subprocess.run("/venv/bin/python -m pytest -q -p no:cacheprovider --timeout=900 perception_eval/test 2>&1 | tail -1", shell=True, cwd=wt, env=dict(env, TMPDIR=suite_tmp), capture_output=True, text=True, timeout=3600)
